@@ -291,6 +291,13 @@ def gen_prep_cases(rng, tier):
     add({"t": "AmplitudeEmbedding", "wires": ["a", "b"], "state": enc([3, 4, 0]), "kind": "real", "kw": {"pad_with": [12.0, 0.0]}, "desc": "pad 12 -> (3,4,0,12)/13"})
     add({"t": "AmplitudeEmbedding", "wires": ["a", "b"], "state": enc([1 / math.sqrt(2), 1 / math.sqrt(2)]), "kind": "real", "kw": {"pad_with": [0.0, 0.0]}, "desc": "doc-pad"})
     add({"t": "AmplitudeEmbedding", "wires": [1, 0], "state": enc([1 + 1j, 1, 1]), "kind": "complex", "kw": {"pad_with": [0.0, 1.0]}, "desc": "complex pad"})
+    # the pad is NOT representable in the dtype of the features (integer features + fractional pad, real features +
+    # complex pad): the documented state is still normalise(concat(features, pad_with * ones))
+    add({"t": "AmplitudeEmbedding", "wires": ["b", "a"], "state": enc([1, 2, 3]), "kind": "int", "kw": {"pad_with": [0.5, 0.0]}, "desc": "int features, fractional pad"})
+    add({"t": "StatePrep", "wires": ["b", "a"], "state": enc([0.6, 0.8]), "kind": "real", "kw": {"pad_with": [0.0, 0.5]}, "desc": "real features, complex pad"})
+    add({"t": "StatePrep", "wires": [1, 0, 2], "state": enc([2, 0, 1, 1, 3]), "kind": "int", "kw": {"pad_with": [-0.75, 0.0], "normalize": True}, "desc": "int features, fractional pad"})
+    add({"t": "AmplitudeEmbedding", "wires": [0, 1], "state": enc([1.0, 2.0, 3.0]), "kind": "real", "kw": {"pad_with": [0.25, -0.75]}, "desc": "real features, complex pad"})
+    add({"t": "AmplitudeEmbedding", "wires": ["q"], "state": enc([2]), "kind": "int", "kw": {"pad_with": [0.0, 1.5]}, "desc": "int features, complex pad"})
     add({"t": "StatePrep", "wires": [2, 0, 1], "state": enc([0, 3, 0, 0, 0, 0, 4, 0]), "kind": "real", "sparse": True, "kw": {"normalize": True}, "desc": "sparse csr"})
     add({"t": "StatePrep", "wires": [2, 0], "state": enc([0, 3, 4]), "kind": "real", "sparse": True, "kw": {"normalize": True}, "desc": "sparse csr short"})
     for st in ([0.0, -1.0], [-1.0, 0.0], [0.0, 0.0, 0.0, -1.0], [-0.5, -0.5, 0.5, 0.5], [0.6, 0.0, 0.0, -0.8], [0.0, 0.0, 0.6, 0.8]):
@@ -344,7 +351,7 @@ def gen_prep_cases(rng, tier):
             if not np.any(np.abs(v) > 1e-6):
                 v = v + 1.0
             p = rng.choice([[0.0, 0.0], [1.0, 0.0], [-0.5, 0.0], [0.25, -0.75], [0.0, 2.0]])
-            if kind != "complex":
+            if kind != "complex" and len(cases) % 2:     # real features: every other case keeps a complex pad
                 p = [p[0] if p[0] or not p[1] else 1.5, 0.0]
             kw = {"pad_with": p}
             if rng.random() < 0.5:
@@ -500,7 +507,9 @@ SQ = [[3, 4], [5, 12], [8, 15], [1, 0], [0, 2], [1, 2, 2], [2, 3, 6], [1, 4, 8],
 # (state, pad, nwires) with rational norm after padding; entries are (re, im) integer pairs
 PADS = [([(3, 0), (4, 0), (0, 0)], (12, 0), 2), ([(1, 0), (1, 0)], (1, 0), 2), ([(1, 0)], (1, 0), 2), ([(11, 0)], (4, 0), 2), ([(1, 0), (1, 0)], (7, 0), 2),
         ([(0, 0)], (3, 4), 1), ([(0, 5)], (3, 4), 2), ([(3, 0)], (0, 4), 1), ([(1, 0), (1, 0), (1, 0), (1, 0), (1, 0), (1, 0), (1, 0)], (3, 0), 3),
-        ([(1, 1), (1, -1)], (1, 1), 3), ([(2, 3), (6, 0)], (0, 0), 2), ([(1, 0), (2, 0), (2, 0), (4, 0)], (0, 0), 3), ([(3, 0), (4, 0)], (0, 0), 1)]
+        ([(1, 1), (1, -1)], (1, 1), 3), ([(2, 3), (6, 0)], (0, 0), 2), ([(1, 0), (2, 0), (2, 0), (4, 0)], (0, 0), 3), ([(3, 0), (4, 0)], (0, 0), 1),
+        # fractional pads on integer vectors, still with rational norm: 4+9/4=(5/2)^2, 1+3*16/121=(13/11)^2, 25+225/16=(25/4)^2
+        ([(2, 0)], (Fr(3, 2), 0), 1), ([(1, 0)], (Fr(4, 11), 0), 2), ([(3, 0), (4, 0), (0, 0)], (Fr(15, 4), 0), 2), ([(-2, 0)], (0, Fr(3, 2)), 1)]
 
 
 def isq(fr):
@@ -524,6 +533,14 @@ def gen_pre_cases(rng, N):
     cases.append(mk([(3, 0), (4, 0), (0, 0)], 2, None, False, True, "StatePrep", "real"))
     cases.append(mk([(0, 0), (0, 0), (0, 0), (0, 0)], 2, None, True, True, "AmplitudeEmbedding", "real"))
     cases.append(mk([(Fr(3, 5), 0), (0, Fr(4, 5))], 1, None, False, True, "AmplitudeEmbedding", "complex"))
+    # pad not representable in the dtype of the features: integer features + fractional pad, real features + complex pad
+    cases.append(mk([(2, 0)], 1, (Fr(3, 2), 0), False, True, "AmplitudeEmbedding", "int"))             # -> (4/5, 3/5)
+    cases.append(mk([(3, 0), (4, 0), (0, 0)], 2, (Fr(15, 4), 0), False, False, "StatePrepDefault", "int"))  # -> (12,16,0,15)/25
+    cases.append(mk([(1, 0)], 2, (Fr(4, 11), 0), True, True, "StatePrep", "int"))                      # -> (11,4,4,4)/13
+    cases.append(mk([(3, 0)], 1, (0, 4), False, True, "StatePrep", "real"))                            # -> (3/5, 4i/5)
+    cases.append(mk([(Fr(1, 2), 0), (Fr(-1, 2), 0)], 3, (Fr(1, 2), Fr(1, 2)), False, True, "AmplitudeEmbedding", "real"))  # 1/2+6/2 -> norm^2 7/2: outside model, direct oracle only
+    cases.append(mk([(0, 0), (5, 0)], 2, (3, -4), False, True, "AmplitudeEmbedding", "int"))            # 25+2*25 = 75: direct oracle only
+    cases.append(mk([(0, 0), (5, 0), (0, 0)], 2, (0, Fr(-15, 4)), True, False, "StatePrep", "int"))    # 25+225/16 -> (0, 4/5, 0, -3i/5)
     while len(cases) < N:
         r = rng.random()
         cls = rng.choice(["StatePrep", "AmplitudeEmbedding", "StatePrepDefault"])
@@ -537,7 +554,12 @@ def gen_pre_cases(rng, N):
             p = (p[0] * s, p[1] * s)
             if rng.random() < 0.15:
                 st = st + [(Fr(1), Fr(0))] * (2 ** n - len(st) + 1)     # too long
-            kind = "complex" if any(b for _, b in st) or p[1] else rng.choice(["real", "complex"])
+            if any(b for _, b in st):
+                kind = "complex"
+            elif all(Fr(a).denominator == 1 for a, _ in st):
+                kind = rng.choice(["real", "complex", "int", "int"])    # integer features: the pad may be fractional / complex
+            else:
+                kind = rng.choice(["real", "complex"])                  # real features: the pad may be complex
             cases.append(mk(st, n, p, normalize, validate, cls, kind, sparse))
             continue
         v = list(rng.choice(SQ))
@@ -687,6 +709,16 @@ def run(ctx):
             if len(vals) != 2 ** c["n"] or (checked and abs(math.sqrt(n2) - 1) > 1.1e-5):
                 ctx.violation("direct-pre:" + json.dumps(c, sort_keys=True), {"case": c, "observed": o, "norm": math.sqrt(n2)},
                               what="pre-processed state has wrong length or is not normalised")
+            # direct oracle for padding (independent of the Coq model, also for irrational norms):
+            # the parameter is concat(features, pad_with * ones) / ||.||, whatever the dtype of the features
+            if c["pad_with"] is not None and not c["sparse"] and len(inp) <= 2 ** c["n"]:
+                full = inp + [(Fr(c["pad_with"][0]), Fr(c["pad_with"][1]))] * (2 ** c["n"] - len(inp))
+                nrm = math.sqrt(float(sum(a * a + b * b for a, b in full)))
+                hp["pad_direct"] = hp.get("pad_direct", 0) + 1
+                scales = [nrm] + ([1.0] if abs(nrm - 1) <= 1e-4 else [])     # inside the norm tolerance the code may leave the vector as it is
+                if nrm > 0 and min(max(abs(complex(float(x[0]), float(x[1])) - complex(float(y[0]), float(y[1])) / sc) for x, y in zip(vals, full)) for sc in scales) > 1e-9:
+                    ctx.violation("direct-pad:" + json.dumps(c, sort_keys=True), {"case": c, "observed": o, "expected": [[float(a) / nrm, float(b) / nrm] for a, b in full]},
+                                  what="padded StatePrep/AmplitudeEmbedding parameter is not normalise(concat(features, pad_with*ones)) (pad lost or altered for this feature dtype?)")
 
     # ---- validation of every template (device primitive and decomposition)
     per, gates, maxerr, phase_only, dirty = {}, {}, 0.0, 0, 0
